@@ -87,6 +87,17 @@ def run(tier):
     ck.add_tlc(res)
     common.require(res.ok, 'SshPolicy: the rule violates its own law %s:\n%s' % (res.violated, '\n'.join(res.trace[-30:])))
     pairs = [p for p in res.prints if isinstance(p, dict) and 'errors' in p]
+    # fields in combination: two host-key types x two group-exchange algorithms x {unlisted, not offered, equal, larger, smaller} x larger-keys flag x list fields
+    # that match or do not (the code folds one verdict over all fields and walks each size map in order)
+    res_c = tlc.run('SshPolicy', cfg.replace('Mode = "mc"', 'Mode = "combo"'), workers=None, timeout=3000)
+    ck.add_tlc(res_c)
+    common.require(res_c.ok, 'SshPolicy (fields in combination): the rule violates its own law %s:\n%s' % (res_c.violated, '\n'.join(res_c.trace[-30:])))
+    combo = [p for p in res_c.prints if isinstance(p, dict) and 'errors' in p]
+    common.require(len(combo) >= 6000, 'too few combinations enumerated (%d)' % len(combo))
+    if tier == 'quick':
+        combo = [p for i, p in enumerate(combo) if i % 2 == ck.seed % 2]
+    ck.log('TLC enumerated %d combinations of fields' % len(combo))
+    pairs += combo
     ck.log('TLC enumerated %d (policy, peer) pairs; laws %s hold' % (len(pairs), ', '.join(LAWS)))
     common.require(len(pairs) > 1000, 'too few pairs enumerated')
     nfail = 0
